@@ -2,6 +2,7 @@ package rules
 
 import (
 	"go/ast"
+	"strings"
 	"go/token"
 
 	"jsverif/internal/core"
@@ -90,4 +91,54 @@ func decodedRule(R string) RuleFunc {
 			c.Check(bad == "", R, fn, c.P.Pos(d.Decl.Pos()), fn+" reads the example only through Unquote()/NewNumber()", "the raw literal bytes are used ("+bad+"): escape sequences in the example are not decoded before the rule is applied")
 		}
 	}
+}
+
+// c01alltypes: every registered type is checked, whatever the root looks like.
+func c01alltypes(c *core.Ctx) {
+	const R = "C01.alltypes"
+	c.Rule(R, "must-pass-through in checker.CheckRootSchema: the loop that calls checkType for every registered user type is reached on every path that does not panic - no return statement precedes it (an early return for an empty root would leave the examples of the registered types unchecked against their own rules), and the loop itself has no break/continue/return")
+	c.Floor(R, 1)
+	d := c.P.FindDecl("notations/jschema/checker.CheckRootSchema")
+	if d == nil {
+		c.Unresolved(R, "notations/jschema/checker.CheckRootSchema")
+		return
+	}
+	var loop *ast.RangeStmt
+	ast.Inspect(d.Decl.Body, func(n ast.Node) bool {
+		if rs, ok := n.(*ast.RangeStmt); ok && loop == nil {
+			ast.Inspect(rs.Body, func(m ast.Node) bool {
+				if call, ok := m.(*ast.CallExpr); ok && strings.HasSuffix(core.ExprStr(call.Fun), ".checkType") {
+					loop = rs
+				}
+				return true
+			})
+		}
+		return true
+	})
+	if loop == nil {
+		c.Bad(R, "CheckRootSchema:types-loop", c.P.Pos(d.Decl.Pos()), "loop over the registered types in CheckRootSchema", "undecided: no loop calling checkType found")
+		return
+	}
+	bad := ""
+	ast.Inspect(d.Decl.Body, func(n ast.Node) bool {
+		switch x := n.(type) {
+		case *ast.FuncLit:
+			return false
+		case *ast.ReturnStmt:
+			if x.Pos() < loop.Pos() {
+				bad = "return at " + c.P.Pos(x.Pos()) + " precedes the loop"
+			}
+		}
+		return true
+	})
+	ast.Inspect(loop.Body, func(n ast.Node) bool {
+		switch x := n.(type) {
+		case *ast.BranchStmt:
+			bad = x.Tok.String() + " inside the loop"
+		case *ast.ReturnStmt:
+			bad = "return inside the loop"
+		}
+		return true
+	})
+	c.Check(bad == "", R, "CheckRootSchema:types-loop", c.P.Pos(loop.Pos()), "every registered type is checked on every path", "some registered types are not checked: "+bad)
 }
